@@ -97,7 +97,7 @@ def insertion(ctx, P):
     for ci, fn, node, recv, how in rules.attr_writes(P, "individuals"):
         n += 1
         ob.seen("%s:%s" % (rules.qual(ci, fn), how))
-        if how in ("insert", "sort", "reverse", "extend", "assign[]", "aug[]", "aug") or (how == "assign" and fn.name != "__init__"):
+        if how in ("insert", "sort", "reverse", "extend", "assign[]", "aug[]", "aug") or (how == "assign" and "__init__" not in rules.effective_names(P, ci, fn)):
             ctx.violation(ob, "R1.tail-insertion", rules.qual(ci, fn), unparse(node), "order-changing-op",
                           "`%s` on the customer lists breaks arrival order within a priority class (FIFO/LIFO rely on it)" % how, loc(node))
     ctx.floor("operations on individuals", n, 4)
